@@ -12,8 +12,8 @@ RULE = (
     "random: 0..12 rows (thorough 0..40) of width 1..3 over a 3-value domain incl. Python lists, "
     "sequences <= 15 (thorough <= 60) of fetchone/next/iterate(k)/fetchmany(n|None)/partitions(n|None,k)/"
     "all/fetchall/first/one/one_or_none/scalar/scalar_one/scalar_one_or_none/scalars(i)/mappings/tuples/"
-    "columns/unique(strategy)/yield_per/close/freeze on the real CursorResult over sqlite3 (default, "
-    "stream_results with max_row_buffer in {1,2,5,7,1000}, fully buffered) and on IteratorResult; every "
+    "columns/unique(strategy)/yield_per/close/freeze (+ merge, oracle only) on the real CursorResult over sqlite3 (default, "
+    "stream_results with max_row_buffer in {0,1,2,5,7,1000}, fully buffered) and on IteratorResult; every "
     "return value, exception class, result.closed and the buffered strategy's (len(_rowbuffer), _bufsize, "
     "_growth_factor, _max_row_buffer) compared with the Coq model after each call. non-trivial = at "
     "least one row and at least two row-delivering calls"
@@ -35,7 +35,8 @@ ASSUMPTIONS = [
     "DBAPI specific)",
     "unique() with the default strategy only on hashable rows (a list inside a row raises TypeError from "
     "the set lookup; with unique(strategy=...) lists are covered)",
-    "MergedResult (Result.merge) is outside the Coq model; see the final report / findings",
+    "MergedResult (Result.merge) is outside the Coq model: 'merge' cases compare the implementation with the "
+    "list-model oracle only",
 ]
 ANCHORS = [
     ("lib/sqlalchemy/engine/cursor.py", "NoCursorFetchStrategy"),
@@ -72,7 +73,7 @@ ANCHORS = [
 
 # operation codes (see coq/engine/ResultRun.v)
 FETCHONE, NEXT, ITER, FETCHMANY, PARTS, ALL, ONLYONE, ROOT, SCALARS, MAPPINGS = range(10)
-COLUMNS, UNIQUE, YIELDPER, CLOSE, FREEZE, FETCHALL, TUPLES = range(10, 17)
+COLUMNS, UNIQUE, YIELDPER, CLOSE, FREEZE, FETCHALL, TUPLES, MERGE = range(10, 18)
 ONLYONE_NAMES = ["first", "one_or_none", "one", "scalar", "scalar_one", "scalar_one_or_none"]
 # (raise_for_second_row, raise_for_none, scalar)
 ONLYONE_FLAGS = [(0, 0, 0), (1, 0, 0), (1, 1, 0), (0, 0, 1), (1, 1, 1), (1, 0, 1)]
@@ -107,11 +108,11 @@ def _rand_op(rng, st):
         if k < 0.38:
             return [ITER, rng.randint(0, 4)]
         if k < 0.62:
-            if st["yp"] and rng.random() < 0.3:
+            if rng.random() < (0.3 if st["yp"] else 0.04):
                 return [FETCHMANY, None]
             return [FETCHMANY, rng.randint(1, 4)]
         if k < 0.80:
-            n = None if (st["yp"] and rng.random() < 0.3) else rng.randint(1, 3)
+            n = None if rng.random() < (0.3 if st["yp"] else 0.04) else rng.randint(1, 3)
             return [PARTS, n, rng.randint(0, 3)]
         if k < 0.90:
             return [rng.choice([ALL, FETCHALL])]
@@ -156,7 +157,7 @@ def _rand_case(rng, maxrows, maxops):
         else:
             rows.append([(_val(rng, lists) if dom == 3 else min(_val(rng, False), dom - 1)) for _ in range(w)])
     has_list = any(isinstance(v, list) for r in rows for v in r)
-    strategy = rng.choice([[0], [1, 1], [1, 2], [1, 5], [1, 7], [1, 1000], [2], [3], [3]])
+    strategy = rng.choice([[0], [0], [1, 0], [1, 1], [1, 2], [1, 5], [1, 7], [1, 1000], [2], [2], [3], [3]])
     st = {"w": w, "yp": False, "strats": [1, 2] if has_list else [0, 0, 1, 2]}
     nops = rng.randint(1, maxops)
     ops = []
@@ -165,6 +166,31 @@ def _rand_case(rng, maxrows, maxops):
     for _ in range(nops):
         ops.append(_rand_op(rng, st))
     return {"in": [strategy, w, rows, ops], "kind": "random"}
+
+
+def _merge_case(rng):
+    """result.merge(other): outside the Coq model; implementation vs the list-model oracle only"""
+    w = rng.randint(1, 2)
+    n = rng.randint(0, 6)
+    rows = []
+    for _ in range(n):
+        rows.append(list(rng.choice(rows)) if rows and rng.random() < 0.35 else [rng.randint(0, 2) for _ in range(w)])
+    other = [list(rng.choice(rows)) if rows and rng.random() < 0.4 else [rng.randint(0, 2) for _ in range(w)]
+             for _ in range(rng.randint(0, 4))]
+    strategy = rng.choice([[0], [1, 2], [2], [3], [3]])
+    st = {"w": w, "yp": False, "strats": [0, 0, 1, 2]}
+    ops = []
+    for _ in range(rng.randint(0, 3)):
+        o = _rand_op(rng, st)
+        if o[0] in (FETCHONE, NEXT, ITER, FETCHMANY, PARTS, UNIQUE, YIELDPER, COLUMNS) and not (
+            o[0] in (FETCHMANY, PARTS) and o[1] is None
+        ):
+            ops.append(o)
+    ops.append([ROOT])
+    ops.append([MERGE, other])
+    for _ in range(rng.randint(1, 8)):
+        ops.append(_rand_op(rng, st))
+    return {"in": [strategy, w, rows, ops], "kind": "merge", "model": False}
 
 
 ALPHABET = [
@@ -184,13 +210,15 @@ def gen_cases(rng, tier):
             if depth == 3 and strategy not in ([0], [1, 2], [3]):
                 continue
             cases.append({"in": [strategy, 2, SMALL_ROWS, [list(o) for o in ops] + [[FETCHALL]]], "kind": "small"})
-    nrand = 40000 if tier == "thorough" else 2600
+    nrand = 40000 if tier == "thorough" else 2000
     for i in range(nrand):
         if tier == "thorough":
             c = _rand_case(rng, 40 if i % 4 == 0 else 12, 60 if i % 3 == 0 else 15)
         else:
             c = _rand_case(rng, 12, 15)
         cases.append(c)
+    for _ in range(4000 if tier == "thorough" else 250):
+        cases.append(_merge_case(rng))
     return cases
 
 
@@ -217,8 +245,14 @@ def impl_setup():
             "t%d" % w, md, sa.Column("id", sa.Integer, primary_key=True),
             *[sa.Column("c%d" % i, sa.JSON) for i in range(w)]
         )
+    others = {}
+    for w in (1, 2, 3):
+        others[w] = sa.Table(
+            "u%d" % w, md, sa.Column("id", sa.Integer, primary_key=True),
+            *[sa.Column("c%d" % i, sa.JSON) for i in range(w)]
+        )
     md.create_all(eng)
-    _ENV.update(eng=eng, tables=tables, conn=eng.connect(), sa=sa)
+    _ENV.update(eng=eng, tables=tables, others=others, conn=eng.connect(), sa=sa)
 
 
 def _deep(x):
@@ -227,13 +261,13 @@ def _deep(x):
     return x
 
 
-def _make_result(strategy, w, rows):
+def _make_result(strategy, w, rows, other=False):
     from sqlalchemy.engine import cursor as _cursor
     from sqlalchemy.engine.result import IteratorResult, SimpleResultMetaData
 
     if strategy[0] == 3:
         return IteratorResult(SimpleResultMetaData(["c%d" % i for i in range(w)]), iter([tuple(r) for r in rows]))
-    sa, conn, t = _ENV["sa"], _ENV["conn"], _ENV["tables"][w]
+    sa, conn, t = _ENV["sa"], _ENV["conn"], _ENV["others" if other else "tables"][w]
     conn.execute(t.delete())
     if rows:
         conn.execute(t.insert(), [dict(("c%d" % i, v) for i, v in enumerate(r)) for r in rows])
@@ -284,9 +318,11 @@ def _internals(root):
 
 class _Drv:
     def __init__(self, strategy, w, rows):
-        self.first_root = self.root = _make_result(strategy, w, rows)
+        self.root = _make_result(strategy, w, rows)
         self.view = self.root
         self.others = []
+        self.strategy = strategy
+        self.raw_w = w
 
     def call(self, op):
         """returns the outcome tree"""
@@ -375,18 +411,22 @@ class _Drv:
             fr = self.root.freeze()
             self.others.append(self.root)
             self.root = self.view = fr()
+            self.raw_w = len(self.root.keys())
+            self.strategy = [3]
+            return [0]
+        if code == MERGE:
+            # a second result of the same shape (same kind of source), merged behind the current one
+            other = _make_result([3] if self.strategy[0] == 3 else [0], self.raw_w, op[1], other=True)
+            self.others += [self.root, other]
+            self.root = self.view = self.root.merge(other)
             return [0]
         raise ValueError("unknown op %r" % (op,))
 
     def step(self, op):
         try:
             out = self.call(op)
-        except StopIteration:
-            raise
-        except Exception as e:  # noqa
+        except Exception as e:  # every exception is an observation; unexpected classes get code 99
             out = [7, _exc_code(e)]
-            if out[1] == E_OTHER:
-                self.unexpected = "%s: %s" % (type(e).__name__, e)
         return [out, 1 if self.root.closed else 0, _internals(self.root)]
 
 
@@ -428,6 +468,7 @@ class ListModel:
         self.yp = None
         self.root = _View(0, [(i, i) for i in range(w)], None)
         self.view = self.root
+        self.merged = False
 
     def _key(self, v, p):
         return _fz(p[:1]) if v.uniq["strat"] == 2 else _fz(p)
@@ -537,6 +578,12 @@ class ListModel:
         elif code == CLOSE:
             self.closed = True
             self.rem = []
+        elif code == MERGE:
+            if self.closed or self.merged:
+                return None  # merging a closed result: nothing documented
+            self.rem = self.rem + [list(r) for r in op[1]]
+            self.view = self.root
+            self.merged = True
         elif code == FREEZE:
             if self.closed:
                 return [7, E_CLOSED], True
@@ -544,6 +591,7 @@ class ListModel:
             self.rem = d
             self.yp = None
             self.root = self.view = _View(0, [(i, c[1]) for i, c in enumerate(self.root.cols)], None)
+            self.merged = False
         else:
             raise ValueError(op)
         return [0], self.closed
@@ -568,6 +616,7 @@ def oracle(c, obs):
         v = m.view
         seen_nonempty = v.uniq is not None and len(v.uniq["seen"]) > 0
         exhausted = not m.rem and not m.closed
+        closed_merged = m.merged and m.closed
         before = None
         if op[0] == ONLYONE and seen_nonempty:
             before = _onlyone_ignoring_seen(m, v, op)
@@ -578,8 +627,14 @@ def oracle(c, obs):
         have = [got[0], got[1]]
         if want == have:
             continue
+        if want[0] == [7, E_ATTR]:
+            return None  # the method exists after all: which methods a view offers is not part of C10
+        if want[0] == [7, E_INDEX] and have[0][0] == 7 and have[1] == want[1]:
+            continue  # a bad column index must be rejected; the exception class is not part of C10
         name = ONLYONE_NAMES[op[1]] if op[0] == ONLYONE else "op%d" % op[0]
         msg = "call #%d %s: list model says %s, implementation %s" % (i, name, want, have)
+        if closed_merged and op[0] in FETCH_OPS + (FREEZE,):
+            return "[merged-close] " + msg
         if before is not None and have == [before, 1]:
             return "[unique-onlyone] " + msg
         if op[0] == ONLYONE and strategy[0] != 3 and exhausted and have == [want[0], 0]:
@@ -595,6 +650,7 @@ def match_finding(c, what):
         ("[unique-onlyone]", "C10-only-one-row-ignores-seen-set"),
         ("[exhausted-onlyone-noclose]", "C10-only-one-row-on-exhausted-cursor-result-not-closed"),
         ("[filter-unique-stale]", "C10-filter-result-unique-after-fetch-ignored"),
+        ("[merged-close]", "C10-merged-result-close-not-enforced"),
     ):
         if what.startswith(tag):
             return fid
